@@ -6,20 +6,32 @@ CLAMP_TAG = ("clamped", "const rtte::RTTE_MIN_RTO", "const rtte::RTTE_MAX_RTO")
 RTO_FIELDS = ("RttState::Initial.rto", "RttState::Subsequent.rto")
 
 
-def refers_to_rto(b, x):
-    """does this place/operand (a `&mut rto` binding, possibly bound by an or-pattern over both variants) point at a stored rto?"""
+def refers_to_rto(b, x, depth=0):
+    """does this place/operand (a `&mut rto` binding, possibly bound by an or-pattern over both variants, or picked by a match that yields the
+    reference) point at a stored rto?  Returns 'RttState::Initial.rto', '...Subsequent.rto' or both joined by '|'."""
+    if depth > 6:
+        return None
     t = trace(b, x)
     if t.last_field in RTO_FIELDS:
         return t.last_field
     if t.kind == "multi" and not t.fields:
-        hits = []
+        hits = set()
         for d in t.root[3]:
+            r = None
             if isinstance(d, Stmt) and d.rv.kind == "ref" and d.rv.place is not None:
                 ff, _, _ = place_fields(b, d.rv.place)
                 if ff and ff[-1] in RTO_FIELDS:
-                    hits.append(ff[-1])
-        if hits and len(hits) == len(t.root[3]):
-            return "|".join(sorted(set(hits)))
+                    r = ff[-1]
+                elif not ff:
+                    # a reborrow `&mut *other_ref`
+                    r = refers_to_rto(b, Place({"l": d.rv.place.local, "p": []}), depth + 1)
+            elif isinstance(d, Stmt) and d.rv.kind == "use" and d.rv.ops[0].place is not None:
+                r = refers_to_rto(b, d.rv.ops[0], depth + 1)
+            if r is None:
+                return None
+            hits.update(r.split("|"))
+        if hits:
+            return "|".join(sorted(hits))
     return None
 
 
@@ -62,7 +74,7 @@ def c16_1(R):
                 val, what = s.rv.ops[i], "RttState::%s{rto}" % s.rv.j["variant"]
             if what is None:
                 continue
-            n += 1
+            n += what.count("|") + 1  # one store through a reference that a match picked from both states stands for two
             if val is not None and val.kind == "const" and val.const_item == "rtte::RTTE_INITIAL_RTT":
                 if init_ns is not None and lo_ns <= init_ns <= hi_ns:
                     R.ok("rto-write-clamped", "%s %s" % (b.name.split("::")[-1], what), "constant RTTE_INITIAL_RTT = %d ms within range" % (init_ns // 1_000_000))
@@ -147,13 +159,16 @@ def c16_2(R):
     else:
         R.fail([cr.name, "shape"], "calc_rto is no longer clamp(srtt + max(rttvar * K, CLOCK_GRANULARITY))", where=cr.where(), instance="calc_rto-shape")
     ot = R.body("rtte::RttEstimator::on_rto_timeout")
-    n = 0
+    covered = set()
     for t in ot.calls():
         if call_matches(t, ("rtte::clamp",)):
             a = trace(ot, t.args[0])
-            if a.kind == "call" and "Mul" in (a.root[1].callee or "") and a.root[1].args[1].scalar == 2 and trace(ot, a.root[1].args[0]).last_field in ("RttState::Initial.rto", "RttState::Subsequent.rto"):
-                n += 1
-    if n >= 2:
+            if a.kind == "call" and "Mul" in (a.root[1].callee or "") and a.root[1].args[1].scalar == 2:
+                rf = refers_to_rto(ot, a.root[1].args[0])
+                if rf:
+                    covered.update(rf.split("|"))
+    n = len(covered)
+    if covered == set(RTO_FIELDS):
         R.ok("backoff-doubles", ot.name, "clamp(rto * 2) in both states")
     else:
         R.fail([ot.name, "doubling-sites=%d" % n], "a timeout no longer doubles the RTO (within the clamp) in both estimator states", where=ot.where(), instance="backoff-doubles")
